@@ -11,22 +11,41 @@ def colonLu : Expr → Bool
   | .lu o _ => o.ty == T.colon
   | _ => false
 
-/-- frames hold the right kind of operator, post frames are only ever on top, and no operand
-    is a bare `: e` -/
+/-- each frame accepts (as its right operand) the tree that the frame above it will produce -/
+def Stacked : List Frame → Prop
+  | [] => True
+  | [_] => True
+  | f :: g :: rest => g.accepts f.lvl = true ∧ Stacked (g :: rest)
+
+/-- frames hold the right kind of operator, post frames are only ever on top, no operand is a bare `: e`,
+    and every operand is a precedence-correct tree that fits its position -/
 structure FramesOk (fs : List Frame) : Prop where
   ok : ∀ f ∈ fs, f.ok
   post : ∀ f ∈ fs.tail, f.isPost = false
   nocolon : ∀ f ∈ fs, ∀ e ∈ f.outs, colonLu e = false
+  canon : ∀ f ∈ fs, ∀ e ∈ f.operands, canonB e = true
+  fit : ∀ f ∈ fs, f.fit = true
+  stacked : Stacked fs
+
+theorem Stacked.tail {f : Frame} {fs : List Frame} (h : Stacked (f :: fs)) : Stacked fs := by
+  cases fs with
+  | nil => trivial
+  | cons g rest => exact h.2
 
 theorem FramesOk.tail {f : Frame} {fs : List Frame} (h : FramesOk (f :: fs)) : FramesOk fs := by
   refine ⟨fun g hg => h.ok g (List.mem_cons_of_mem _ hg), fun g hg => ?_,
-          fun g hg => h.nocolon g (List.mem_cons_of_mem _ hg)⟩
+          fun g hg => h.nocolon g (List.mem_cons_of_mem _ hg),
+          fun g hg => h.canon g (List.mem_cons_of_mem _ hg),
+          fun g hg => h.fit g (List.mem_cons_of_mem _ hg), h.stacked.tail⟩
   exact h.post g (by simpa using List.mem_of_mem_tail hg)
 
 theorem FramesOk.head_tail_notPost {f g : Frame} {fs : List Frame} (h : FramesOk (f :: g :: fs)) : g.isPost = false :=
   h.post g (by simp)
 
-theorem FramesOk.nil : FramesOk [] := ⟨by simp, by simp, by simp⟩
+theorem FramesOk.head_accepts {f g : Frame} {fs : List Frame} (h : FramesOk (f :: g :: fs)) : g.accepts f.lvl = true :=
+  h.stacked.1
+
+theorem FramesOk.nil : FramesOk [] := ⟨by simp, by simp, by simp, by simp, by simp, trivial⟩
 
 /-- "an operand is available": a top operand above a non-postfix frame, or a postfix frame on top -/
 def ModeO (fs : List Frame) (top : Option Expr) : Prop :=
@@ -125,6 +144,52 @@ theorem apply_frame (f : Frame) (hf : f.ok) (top : Option Expr) (r : Expr) (hr :
       simp only [Frame.result, Option.some.injEq] at hr; subst hr
       exact ⟨by simpa [Frame.outs, Frame.node] using apply_colon n prev e t c q rest hf.1 hf.2,
              by simp [Frame.toks, topToks, printToks]⟩
+  | opn n => cases top <;> simp [Frame.result] at hr
+
+/-- applying a frame to a precedence-correct operand that it accepts gives a precedence-correct tree of the
+    frame's level -/
+theorem apply_frame_canon (f : Frame) (hf : f.ok) (top : Option Expr) (r : Expr) (hr : f.result top = some r)
+    (hops : ∀ e ∈ f.operands, canonB e = true) (hfit : f.fit = true)
+    (htop : ∀ e, top = some e → canonB e = true ∧ f.accepts (rootPrec e) = true) :
+    canonB r = true ∧ rootPrec r = f.lvl := by
+  cases f with
+  | pre n =>
+    cases top with
+    | none => simp [Frame.result] at hr
+    | some e =>
+      simp only [Frame.result, Option.some.injEq] at hr; subst hr
+      obtain ⟨h1, h2⟩ := htop e rfl
+      exact ⟨canonB_pfx n e hf h1 h2, rootPrec_pfx n e hf⟩
+  | bin n l =>
+    cases top with
+    | none => simp [Frame.result] at hr
+    | some e =>
+      simp only [Frame.result, Option.some.injEq] at hr; subst hr
+      obtain ⟨h1, h2⟩ := htop e rfl
+      have hl := hops l (by simp [Frame.operands])
+      simp only [Frame.fit] at hfit
+      simp only [Frame.accepts] at h2
+      exact ⟨by simp [canonB, hl, h1, hfit, h2], rfl⟩
+  | post n e =>
+    cases top with
+    | some e' => simp [Frame.result] at hr
+    | none =>
+      simp only [Frame.result, Option.some.injEq] at hr; subst hr
+      have he := hops e (by simp [Frame.operands])
+      simp only [Frame.fit] at hfit
+      exact ⟨by simp [canonB, he, hfit], rfl⟩
+  | quest n c => cases top <;> simp [Frame.result] at hr
+  | colon n c t q =>
+    cases top with
+    | none => simp [Frame.result] at hr
+    | some e =>
+      simp only [Frame.result, Option.some.injEq] at hr; subst hr
+      obtain ⟨h1, h2⟩ := htop e rfl
+      have hc := hops c (by simp [Frame.operands])
+      have ht := hops t (by simp [Frame.operands])
+      simp only [Frame.fit] at hfit
+      simp only [Frame.accepts] at h2
+      exact ⟨by simp [canonB, hc, ht, h1, hfit, h2], rfl⟩
   | opn n => cases top <;> simp [Frame.result] at hr
 
 theorem scopeOut_cons (f : Frame) (fs : List Frame) (top : Option Expr) :
@@ -262,39 +327,97 @@ theorem post_prec {f : Frame} (hf : f.ok) (hp : f.isPost = true) : f.node.op.pre
   cases f <;> simp [Frame.isPost] at hp
   exact (ty_facts_ru _ hf).2.2.2
 
+theorem lvl_eq (f : Frame) (hf : f.ok) (hr : f.reducible = true) : f.lvl = f.node.op.prec := by
+  cases f with
+  | colon n c t q => obtain ⟨h0, _⟩ := ty_facts_c n.op hf.1; simp [Frame.lvl, Frame.node, h0]; decide
+  | quest n c => simp [Frame.reducible, Frame.isQuest, Frame.isOpn] at hr
+  | opn n => simp [Frame.reducible, Frame.isQuest, Frame.isOpn] at hr
+  | _ => rfl
+
+theorem pops_leftFits (o q : Op) (h : pops o q = true) : leftFits o.prec q.prec = true := by
+  simp only [pops, Bool.or_eq_true, decide_eq_true_eq, Bool.and_eq_true, beq_iff_eq] at h
+  simp only [leftFits, Bool.or_eq_true, decide_eq_true_eq, Bool.and_eq_true, beq_iff_eq]
+  rcases h with h | ⟨h1, h2⟩
+  · exact Or.inl h
+  · exact Or.inr ⟨h1.symm, by rw [h1]; exact h2⟩
+
+theorem notPops_rightFits (o q : Op) (h : pops o q = false) : rightFits q.prec o.prec = true := by
+  simp only [pops, Bool.or_eq_false_iff, decide_eq_false_iff_not, Bool.and_eq_false_iff, beq_eq_false_iff_ne] at h
+  simp only [rightFits, Bool.or_eq_true, decide_eq_true_eq, Bool.and_eq_true, beq_iff_eq, Bool.not_eq_true']
+  obtain ⟨h1, h2⟩ := h
+  by_cases he : o.prec = q.prec
+  · exact Or.inr ⟨he, by rcases h2 with h2 | h2; exact absurd he h2; exact h2⟩
+  · exact Or.inl (by omega)
+
+theorem accepts_of_notPops (f : Frame) (hf : f.ok) (hr : f.reducible = true) (hnp : f.isPost = false) (o : Op)
+    (h : pops o f.node.op = false) : f.accepts o.prec = true := by
+  have := notPops_rightFits o f.node.op h
+  cases f with
+  | pre n => exact this
+  | bin n l => exact this
+  | colon n c t q =>
+    obtain ⟨h0, _⟩ := ty_facts_c n.op hf.1
+    simp only [Frame.node, h0] at this
+    simpa [Frame.accepts, pfx_prec_facts.2.2.2.1, pfx_prec_facts.2.2.2.2] using this
+  | post n e => simp [Frame.isPost] at hnp
+  | quest n c => rfl
+  | opn n => rfl
+
+theorem prec16_facts : (∀ o : Op, preOk o = true → o.prec ≠ 16) ∧ (∀ o : Op, has o.ty T.binary = true → o.prec ≠ 16 ∧ o.prec ≥ 1) ∧
+    leftAssoc 16 = false ∧ (∀ o : Op, preOk o = true → o.prec ≥ 1) := by
+  refine ⟨forall_op (by decide +kernel), forall_op (by decide +kernel), by decide, forall_op (by decide +kernel)⟩
+
+/-- a frame of level 16 that the incoming `?` leaves alone accepts the conditional expression to come -/
+theorem accepts_of_qstop (f : Frame) (hf : f.ok) (hr : f.reducible = true) (hnp : f.isPost = false)
+    (h : f.node.op.prec = 16) : f.accepts 16 = true := by
+  cases f with
+  | pre n => exact absurd h (prec16_facts.1 n.op hf)
+  | bin n l => exact absurd h (prec16_facts.2.1 n.op hf).1
+  | colon n c t q => simp [Frame.accepts, rightFits, pfx_prec_facts.2.2.2.1, prec16_facts.2.2.1]
+  | post n e => simp [Frame.isPost] at hnp
+  | quest n c => rfl
+  | opn n => rfl
+
 /-- `applyFasterOperators` for an incoming binary / postfix / `?` operator when an operand is
     available: it reduces a prefix of the frames and leaves one operand on top; the tokens of the
     scope are unchanged. -/
 theorem popFaster_spec (o : Op) (prev : Option Tok) (hc : has o.ty T.colon = false) :
     ∀ (fs : List Frame), FramesOk fs → ∀ (top : Option Expr), ModeO fs top →
       (∀ f, fs.head? = some f → f.isPost = true → o.prec ≥ 2) →
-      (∀ e, top = some e → colonLu e = false) → ∀ out' ops',
+      (∀ e, top = some e → colonLu e = false) →
+      (∀ e, top = some e → canonB e = true ∧ leftFits o.prec (rootPrec e) = true ∧
+          ∀ f, fs.head? = some f → f.accepts (rootPrec e) = true) → ∀ out' ops',
       popFaster o prev (scopeOut fs top) (scopeOps fs) = .ok (out', ops') →
       ∃ fs' e' pre, out' = scopeOut fs' (some e') ∧ ops' = scopeOps fs' ∧ FramesOk fs' ∧ colonLu e' = false ∧
         (∀ f, fs'.head? = some f → f.isPost = false) ∧
         scopeToks fs' (some e') = scopeToks fs top ∧ questCount fs' = questCount fs ∧
-        fs = pre ++ fs' ∧ (∀ f ∈ pre, f.reducible = true) := by
+        fs = pre ++ fs' ∧ (∀ f ∈ pre, f.reducible = true) ∧
+        canonB e' = true ∧ leftFits o.prec (rootPrec e') = true ∧ (∀ f, fs'.head? = some f → f.accepts o.prec = true) := by
   intro fs
   induction fs with
   | nil =>
-    intro _ top hm _ hcl out' ops' h
+    intro _ top hm _ hcl hcan out' ops' h
     rcases hm with ⟨h1, _⟩ | ⟨_, n, e, fs', h2⟩
     · obtain ⟨e, rfl⟩ := Option.isSome_iff_exists.mp h1
       simp [scopeOps, popFaster_nil] at h
-      exact ⟨[], e, [], by simp [h.1], by simp [scopeOps, h.2], FramesOk.nil, hcl e rfl, by simp, rfl, rfl, rfl, by simp⟩
+      exact ⟨[], e, [], by simp [h.1], by simp [scopeOps, h.2], FramesOk.nil, hcl e rfl, by simp, rfl, rfl, rfl, by simp,
+        (hcan e rfl).1, (hcan e rfl).2.1, by simp⟩
     · simp at h2
   | cons f fs ih =>
-    intro hok top hm hp hcl out' ops' h
+    intro hok top hm hp hcl hcan out' ops' h
     -- "nothing is reduced": the state is returned unchanged and an operand is on top
-    have unchanged : f.isPost = false → (out', ops') = (scopeOut (f :: fs) top, f.node :: scopeOps fs) →
+    have unchanged : f.isPost = false → f.accepts o.prec = true →
+        (out', ops') = (scopeOut (f :: fs) top, f.node :: scopeOps fs) →
         ∃ fs' e' pre, out' = scopeOut fs' (some e') ∧ ops' = scopeOps fs' ∧ FramesOk fs' ∧ colonLu e' = false ∧
         (∀ g, fs'.head? = some g → g.isPost = false) ∧
         scopeToks fs' (some e') = scopeToks (f :: fs) top ∧ questCount fs' = questCount (f :: fs) ∧
-        f :: fs = pre ++ fs' ∧ (∀ g ∈ pre, g.reducible = true) := by
-      intro hnp heq
+        f :: fs = pre ++ fs' ∧ (∀ g ∈ pre, g.reducible = true) ∧
+        canonB e' = true ∧ leftFits o.prec (rootPrec e') = true ∧ (∀ g, fs'.head? = some g → g.accepts o.prec = true) := by
+      intro hnp hacc heq
       obtain ⟨e, rfl⟩ := hm.top_some_of_notPost hnp
       simp only [Prod.mk.injEq] at heq
-      exact ⟨f :: fs, e, [], heq.1, heq.2, hok, hcl e rfl, by simpa using hnp, rfl, rfl, rfl, by simp⟩
+      exact ⟨f :: fs, e, [], heq.1, heq.2, hok, hcl e rfl, by simpa using hnp, rfl, rfl, rfl, by simp,
+        (hcan e rfl).1, (hcan e rfl).2.1, by simpa using hacc⟩
     have hops : scopeOps (f :: fs) = f.node :: scopeOps fs := rfl
     rw [hops, popFaster_cons] at h
     by_cases hr : f.reducible = true
@@ -309,7 +432,12 @@ theorem popFaster_spec (o : Op) (prev : Option Tok) (hc : has o.ty T.colon = fal
             simp only [Bool.and_eq_true, beq_iff_eq] at hq
             have := q_prec o hq.1
             omega
-        exact unchanged hnp (by simpa using h.symm)
+        have hacc : f.accepts o.prec = true := by
+          simp only [Bool.and_eq_true, beq_iff_eq] at hq
+          have h16 := q_prec o hq.1
+          rw [h16]
+          exact accepts_of_qstop f (hok.ok f (by simp)) hr hnp (by rw [hq.2, h16])
+        exact unchanged hnp hacc (by simpa using h.symm)
       · rw [if_neg hq] at h
         by_cases hpop : pops o f.node.op = true
         · rw [if_pos hpop] at h
@@ -329,9 +457,22 @@ theorem popFaster_spec (o : Op) (prev : Option Tok) (hc : has o.ty T.colon = fal
             | cons g' fs' =>
               simp at hg; subst hg
               have := hok.head_tail_notPost; rw [this] at hgp; simp at hgp
-          obtain ⟨fs', e', pre, h1, h2, h3, h3', h4, h5, h6, h7, h8⟩ := ih hok.tail (some r) hm' hp'
-            (fun e he => by simp at he; subst he; exact colonLu_result f (hok.ok f (by simp)) top r hres) out' ops' h
-          refine ⟨fs', e', f :: pre, h1, h2, h3, h3', h4, ?_, ?_, by simp [h7], ?_⟩
+          have hrc : canonB r = true ∧ rootPrec r = f.lvl :=
+            apply_frame_canon f (hok.ok f (by simp)) top r hres (hok.canon f (by simp)) (hok.fit f (by simp))
+              (fun e he => ⟨(hcan e he).1, (hcan e he).2.2 f rfl⟩)
+          have hcan' : ∀ e, some r = some e → canonB e = true ∧ leftFits o.prec (rootPrec e) = true ∧
+              ∀ g, fs.head? = some g → g.accepts (rootPrec e) = true := by
+            intro e he
+            simp at he; subst he
+            refine ⟨hrc.1, ?_, ?_⟩
+            · rw [hrc.2, lvl_eq f (hok.ok f (by simp)) hr]; exact pops_leftFits o f.node.op hpop
+            · intro g hg
+              cases fs with
+              | nil => simp at hg
+              | cons g' fs' => simp at hg; subst hg; rw [hrc.2]; exact hok.head_accepts
+          obtain ⟨fs', e', pre, h1, h2, h3, h3', h4, h5, h6, h7, h8, h9, h10, h11⟩ := ih hok.tail (some r) hm' hp'
+            (fun e he => by simp at he; subst he; exact colonLu_result f (hok.ok f (by simp)) top r hres) hcan' out' ops' h
+          refine ⟨fs', e', f :: pre, h1, h2, h3, h3', h4, ?_, ?_, by simp [h7], ?_, h9, h10, h11⟩
           · rw [h5, scopeToks_cons, scopeToks_some, htk]; simp [List.append_assoc]
           · rw [h6, questCount_reducible f fs hr]
           · intro g hg; simp at hg; rcases hg with rfl | hg
@@ -350,7 +491,7 @@ theorem popFaster_spec (o : Op) (prev : Option Tok) (hc : has o.ty T.colon = fal
               · simp [h2]
               · have : o.prec > 2 := by omega
                 simp [this]
-          exact unchanged hnp (by simpa using h.symm)
+          exact unchanged hnp (accepts_of_notPops f (hok.ok f (by simp)) hr hnp o (by simpa using hpop)) (by simpa using h.symm)
     · -- an open pair or a pending `?`: the loop stops
       have hnp : f.isPost = false := by
         cases f <;> simp [Frame.reducible, Frame.isOpn, Frame.isQuest, Frame.isPost] at hr ⊢
@@ -358,15 +499,15 @@ theorem popFaster_spec (o : Op) (prev : Option Tok) (hc : has o.ty T.colon = fal
       | opn n =>
         have : has n.op.ty T.pairStart = true := hok.ok (Frame.opn n) (by simp)
         simp only [Frame.node, this, if_true] at h
-        exact unchanged hnp (by simpa [Frame.node] using h.symm)
+        exact unchanged hnp rfl (by simpa [Frame.node] using h.symm)
       | quest n c =>
         have hq : (n.op.ty == T.questionMark) = true := hok.ok (Frame.quest n c) (by simp)
         obtain ⟨_, _, _, _, _, hps⟩ := ty_facts_q n.op hq
         have hq' : has n.op.ty T.questionMark = true := by rw [has_q_eq]; exact hq
         simp only [Frame.node, hps, hq', hc, Bool.false_eq_true, if_false, Bool.not_false, Bool.and_self, if_true] at h
         split at h
-        · exact unchanged hnp (by simpa [Frame.node] using h.symm)
-        · exact unchanged hnp (by simpa [Frame.node] using h.symm)
+        · exact unchanged hnp rfl (by simpa [Frame.node] using h.symm)
+        · exact unchanged hnp rfl (by simpa [Frame.node] using h.symm)
       | pre n => simp [Frame.reducible, Frame.isOpn, Frame.isQuest] at hr
       | bin n l => simp [Frame.reducible, Frame.isOpn, Frame.isQuest] at hr
       | post n e => simp [Frame.reducible, Frame.isOpn, Frame.isQuest] at hr
@@ -393,17 +534,18 @@ theorem questCount_pos_cons {f : Frame} {fs : List Frame} (h : questCount (f :: 
 /-- `applyFasterOperators` for an incoming `:`: everything above the nearest pending `?` is
     reduced, then the `?` itself; the condition and `? true-branch` are left on the output stack. -/
 theorem popColon_spec (o : Op) (prev : Option Tok) (hc : has o.ty T.colon = true) :
-    ∀ (fs : List Frame), FramesOk fs → ∀ (top : Option Expr), ModeO fs top → questCount fs > 0 → ∀ out' ops',
+    ∀ (fs : List Frame), FramesOk fs → ∀ (top : Option Expr), ModeO fs top → questCount fs > 0 →
+      (∀ e, top = some e → canonB e = true ∧ ∀ f, fs.head? = some f → f.accepts (rootPrec e) = true) → ∀ out' ops',
       popFaster o prev (scopeOut fs top) (scopeOps fs) = .ok (out', ops') →
       ∃ pre n c fs' t, fs = pre ++ Frame.quest n c :: fs' ∧ (∀ f ∈ pre, f.reducible = true) ∧
         out' = .lu n.op t :: c :: scopeOut fs' none ∧ ops' = scopeOps fs' ∧
         scopeToks fs top = scopeToks fs' none ++ printToks c ++ [.op .questionMark] ++ printToks t ∧
-        questCount fs = questCount fs' + 1 := by
+        questCount fs = questCount fs' + 1 ∧ canonB t = true := by
   intro fs
   induction fs with
   | nil => intro _ _ _ hq; simp [questCount] at hq
   | cons f fs ih =>
-    intro hok top hm hq out' ops' h
+    intro hok top hm hq hcan out' ops' h
     have hoq := colon_not_q o hc
     have hops : scopeOps (f :: fs) = f.node :: scopeOps fs := rfl
     rw [hops, popFaster_cons] at h
@@ -425,8 +567,19 @@ theorem popColon_spec (o : Op) (prev : Option Tok) (hc : has o.ty T.colon = true
         rcases hcase with h1 | ⟨_, h2⟩
         · simp [Frame.reducible] at hr; rw [hr.2] at h1; simp at h1
         · exact h2
-      obtain ⟨pre, n, c, fs', t, h1, h2, h3, h4, h5, h6⟩ := ih hok.tail (some r) hm' hq' out' ops' h
-      refine ⟨f :: pre, n, c, fs', t, by simp [h1], ?_, h3, h4, ?_, ?_⟩
+      have hrc : canonB r = true ∧ rootPrec r = f.lvl :=
+        apply_frame_canon f (hok.ok f (by simp)) top r hres (hok.canon f (by simp)) (hok.fit f (by simp))
+          (fun e he => ⟨(hcan e he).1, (hcan e he).2 f rfl⟩)
+      have hcan' : ∀ e, some r = some e → canonB e = true ∧ ∀ g, fs.head? = some g → g.accepts (rootPrec e) = true := by
+        intro e he
+        simp at he; subst he
+        refine ⟨hrc.1, ?_⟩
+        intro g hg
+        cases fs with
+        | nil => simp at hg
+        | cons g' fs' => simp at hg; subst hg; rw [hrc.2]; exact hok.head_accepts
+      obtain ⟨pre, n, c, fs', t, h1, h2, h3, h4, h5, h6, h7⟩ := ih hok.tail (some r) hm' hq' hcan' out' ops' h
+      refine ⟨f :: pre, n, c, fs', t, by simp [h1], ?_, h3, h4, ?_, ?_, h7⟩
       · intro g hg; simp at hg; rcases hg with rfl | hg
         · exact hr
         · exact h2 g hg
@@ -445,7 +598,7 @@ theorem popColon_spec (o : Op) (prev : Option Tok) (hc : has o.ty T.colon = true
           simp [scopeOut, Frame.outs]
         rw [this, apply_quest n prev t _ hq1] at h
         simp only [Except.ok.injEq, Prod.mk.injEq] at h
-        refine ⟨[], n, c, fs, t, rfl, by simp, h.1.symm, h.2.symm, ?_, ?_⟩
+        refine ⟨[], n, c, fs, t, rfl, by simp, h.1.symm, h.2.symm, ?_, ?_, (hcan t rfl).1⟩
         · rw [scopeToks_cons]; simp [Frame.toks, topToks, List.append_assoc]
         · simp [questCount, Frame.isOpn, Frame.isQuest]; omega
       | pre n => simp [Frame.reducible, Frame.isOpn, Frame.isQuest] at hr
@@ -462,22 +615,24 @@ open Occa.Gen
 theorem reduce_all (prev : Option Tok) :
     ∀ (pre : List Frame), (∀ f ∈ pre, f.reducible = true) → FramesOk pre → ∀ (top : Option Expr), ModeO pre top →
       (∀ e, top = some e → colonLu e = false) →
+      (∀ e, top = some e → canonB e = true ∧ ∀ f, pre.head? = some f → f.accepts (rootPrec e) = true) →
       ∃ v, printToks v = scopeToks pre top ∧ colonLu v = false ∧ (pre = [] → top = some v) ∧ (pre ≠ [] → isTypeNode v = false) ∧
+        canonB v = true ∧
         (∀ rest, applyAll prev (scopeOut pre top ++ rest) (scopeOps pre) = .ok (v :: rest)) ∧
         (∀ endOp rest opsRest, closeLoop endOp prev (scopeOut pre top ++ rest) (scopeOps pre ++ opsRest) =
           closeLoop endOp prev (v :: rest) opsRest) := by
   intro pre
   induction pre with
   | nil =>
-    intro _ _ top hm hcl
+    intro _ _ top hm hcl hcan
     rcases hm with ⟨h1, _⟩ | ⟨_, n, e, fs', h2⟩
     · obtain ⟨e, rfl⟩ := Option.isSome_iff_exists.mp h1
-      exact ⟨e, by simp [scopeToks, topToks], hcl e rfl, fun _ => rfl, fun h => absurd rfl h,
+      exact ⟨e, by simp [scopeToks, topToks], hcl e rfl, fun _ => rfl, fun h => absurd rfl h, (hcan e rfl).1,
              by intro rest; simp [scopeOut, scopeOps, applyAll],
              by intro endOp rest opsRest; simp [scopeOut, scopeOps]⟩
     · simp at h2
   | cons f fs ih =>
-    intro hred hok top hm hcl
+    intro hred hok top hm hcl hcan
     have hr := hred f (by simp)
     obtain ⟨hps, _⟩ := frame_ty f (hok.ok f (by simp)) hr
     obtain ⟨r, hres⟩ := frame_result_some f hr top hm.cases
@@ -485,9 +640,20 @@ theorem reduce_all (prev : Option Tok) :
       cases fs with
       | nil => simp at hg
       | cons g' fs' => simp at hg; subst hg; exact hok.head_tail_notPost⟩
-    obtain ⟨v, hv1, hv2, hvn, hvt, hv3, hv4⟩ := ih (fun g hg => hred g (by simp [hg])) hok.tail (some r) hm'
-      (fun e he => by simp at he; subst he; exact colonLu_result f (hok.ok f (by simp)) top r hres)
-    refine ⟨v, ?toks, hv2, fun h => by simp at h, fun _ => ?ty, ?aall, ?cl⟩
+    have hrc : canonB r = true ∧ rootPrec r = f.lvl :=
+      apply_frame_canon f (hok.ok f (by simp)) top r hres (hok.canon f (by simp)) (hok.fit f (by simp))
+        (fun e he => ⟨(hcan e he).1, (hcan e he).2 f rfl⟩)
+    have hcan' : ∀ e, some r = some e → canonB e = true ∧ ∀ g, fs.head? = some g → g.accepts (rootPrec e) = true := by
+      intro e he
+      simp at he; subst he
+      refine ⟨hrc.1, ?_⟩
+      intro g hg
+      cases fs with
+      | nil => simp at hg
+      | cons g' fs' => simp at hg; subst hg; rw [hrc.2]; exact hok.head_accepts
+    obtain ⟨v, hv1, hv2, hvn, hvt, hvc, hv3, hv4⟩ := ih (fun g hg => hred g (by simp [hg])) hok.tail (some r) hm'
+      (fun e he => by simp at he; subst he; exact colonLu_result f (hok.ok f (by simp)) top r hres) hcan'
+    refine ⟨v, ?toks, hv2, fun h => by simp at h, fun _ => ?ty, hvc, ?aall, ?cl⟩
     case ty =>
       by_cases hfs : fs = []
       · have := hvn hfs; simp at this; subst this
